@@ -336,6 +336,15 @@ def build_case(r, kind, tier):
     elif kind == "not_fired":
         faults = [{"kind": "write_err", "path": "__stdout__", "at": 10 ** 9, "errno": "ENOSPC"}]
         expect = "ok"
+        if r.chance(0.4):
+            # "a run that exits 0 has ... flushed all of its output to every destination": the tee verb's file is complete
+            # whatever stops early behind it
+            verbs = r.choice([[["tee", "t.out"], ["head", "-n", "1"]], [["tee", "-a", "t.out"], ["put", "$z = 1"], ["head", "-n", "2"]],
+                              [["cat"], ["tee", "t.out"], ["head", "-n", "1"], ["cat"]], [["tee", "t.out"], ["head", "-n", "1"], ["head", "-n", "1"]],
+                              [["tee", "t.out"], ["nothing"]], [["tee", "t.out"], ["head", "-n", "1", "-g", "a"]]])
+            if "--ocsv" in oflags:
+                oflags = []
+            files[names[j]] = fmt_text(fmt, rect_records(r, r.choice([4, 11, 23, 60])))
     elif kind == "join_left":
         lrecs = rect_records(r, r.choice([2, 5, 40]))
         sorted_mode = r.chance(0.55)
